@@ -10,6 +10,21 @@ from sim.client import s
 from .c01 import C01
 from .common import USER
 
+# charset names a SEARCH may carry: text codecs, the runtime's non-text
+# codecs and aliases, stateful and odd ones
+CODECS = [b'hex', b'hex_codec', b'base64', b'base_64', b'rot13', b'rot-13',
+          b'zlib', b'zip', b'bz2', b'uu', b'quopri', b'quoted-printable',
+          b'idna', b'punycode', b'unicode_escape', b'unicode-escape',
+          b'raw_unicode_escape', b'utf-16', b'UTF-16LE', b'utf-32', b'utf-7',
+          b'UTF7', b'utf-8-sig', b'UTF8', b'ascii', b'646', b'cp037',
+          b'cp500', b'undefined', b'mbcs', b'oem', b'big5', b'shift_jis',
+          b'iso-2022-jp', b'hz', b'charmap', b'palmos', b'string_escape',
+          b'latin_1', b'iso8859-15', b'koi8-r', b'mac-roman', b'ptcp154',
+          b'utf_8_sig', b'UTF-8 ', b'utf\x00', b'x' * 300, b'..', b'a/b',
+          b'os', b'encodings', b'__init__', b'aliases']
+
+
+
 SEARCH_KEYS = [
     'ALL', 'ANSWERED', 'DELETED', 'FLAGGED', 'NEW', 'OLD', 'RECENT', 'SEEN',
     'UNANSWERED', 'UNDELETED', 'UNFLAGGED', 'UNSEEN', 'DRAFT', 'UNDRAFT',
@@ -102,8 +117,8 @@ def gen_command(rng: random.Random, state: str) -> bytes:
         lambda: b'UID EXPUNGE ' + st(),
         lambda: rng.choice([b'', b'UID ']) + b'SEARCH ' +
         (b'CHARSET ' + rng.choice([b'UTF-8', b'US-ASCII', b'X-FOO', b'""',
-                                   b'utf-8', b'latin-1']) + b' '
-         if rng.random() < 0.2 else b'') +
+                                   b'utf-8', b'latin-1'] + CODECS) + b' '
+         if rng.random() < 0.3 else b'') +
         b' '.join(rng.choice(SEARCH_KEYS).encode()
                   for _ in range(rng.randint(1, 4))),
         lambda: rng.choice([b'', b'UID ']) + b'SEARCH ' + rng.choice([
@@ -115,6 +130,13 @@ def gen_command(rng: random.Random, state: str) -> bytes:
             b'EMAILID M123', b'THREADID T1', b'EMAILID (x)', b'UID ' + st(),
             b'SENTON 1-Jan-1', b'SINCE 1-Jan-10000', b'OR OR OR A B C D',
             b'NOT NOT NOT NOT SEEN', b'MODSEQ 5', b'X-FOO']),
+        # every codec name the runtime knows (text or not) with a string key
+        lambda: rng.choice([b'', b'UID ']) + b'SEARCH CHARSET ' +
+        rng.choice(CODECS) + b' ' + rng.choice([
+            b'SUBJECT abc', b'TEXT "a b"', b'BODY {3+}\r\nabc', b'FROM \xe9',
+            b'HEADER X-Token \xff\xfe', b'OR TO a CC "\xc3\xa9"',
+            b'NOT BCC {2+}\r\n\xc3\xa9', b'ALL', b'SUBJECT ""',
+            b'SUBJECT +ZeVnLIqe-', b'TEXT =C3=A9', b'TEXT 68656c6c6f']),
         lambda: rng.choice([b'', b'UID ']) + b'FETCH ' + st() + b' ' +
         rng.choice(FETCH_ATTRS).encode(),
         lambda: rng.choice([b'', b'UID ']) + b'FETCH ' + st() + b' ' +
